@@ -34,6 +34,7 @@ struct RunState {
     std::set<uint64_t> taskKindsInverted;
     std::map<long, std::set<int>> kernelIndexWorkers;
     int maxThreadsSeen = 0;
+    std::set<std::string> kindPairsInverted, kindPairsNested;
     explicit RunState(Ctx& c, const Scenario& s) : ctx(c), sc(s) {}
 
     void drain(const std::string& origin) {
@@ -50,10 +51,11 @@ void prepareInputs(Ctx& ctx, const Scenario& sc) {
         for (size_t i = 0; i < sc.tgt.size(); ++i) ctx.inputs[1].push_back({{sc.tgt[i][0], sc.tgt[i][1], sc.tgt[i][2], double(wkWeight(sc.runKey, 1, long(i))) * scale}});
         return;
     }
+    const unsigned long wmask = sc.isFloat() ? ((1UL << 22) - 1) : ~0UL;   // weights must be exact in the tree's real type
     for (size_t i = 0; i < sc.src.size(); ++i)
-        ctx.inputs[0].push_back({{sc.src[i][0], sc.src[i][1], sc.src[i][2], double(wkWeight(sc.runKey, 0, long(i)))}});
+        ctx.inputs[0].push_back({{sc.src[i][0], sc.src[i][1], sc.src[i][2], double((wkWeight(sc.runKey, 0, long(i)) & wmask) | 1UL)}});
     for (size_t i = 0; i < sc.tgt.size(); ++i)
-        ctx.inputs[1].push_back({{sc.tgt[i][0], sc.tgt[i][1], sc.tgt[i][2], double(wkWeight(sc.runKey, 1, long(i)))}});
+        ctx.inputs[1].push_back({{sc.tgt[i][0], sc.tgt[i][1], sc.tgt[i][2], double((wkWeight(sc.runKey, 1, long(i)) & wmask) | 1UL)}});
 }
 
 std::unique_ptr<IWorld> makeWorld(const Scenario& sc) {
@@ -100,7 +102,7 @@ void doExecute(RunState& rs, IWorld& w, const HistOp& op, bool simulate, const s
     if (rs.maxThreadsSeen == 0) rs.maxThreadsSeen = rs.sc.threadsCtor;
     const bool kernelGrowth = simulate && ctx.sim.maxThreads > rs.maxThreadsSeen;
     if (simulate && ctx.sim.maxThreads > rs.maxThreadsSeen) rs.maxThreadsSeen = ctx.sim.maxThreads;
-    const bool balanceApplies = !kernelGrowth && (rs.sc.kernel == "weight" || rs.sc.kernel == "test");
+    const bool balanceApplies = !kernelGrowth && (rs.sc.kernel == "weight" || rs.sc.kernel == "weight_float" || rs.sc.kernel == "test");
     const long live0 = liveAllocations();
     setStage(simulate ? "task-execute" : "seq-execute");
     w.execute(op.flags);
@@ -112,6 +114,16 @@ void doExecute(RunState& rs, IWorld& w, const HistOp& op, bool simulate, const s
         rs.regions += 1;
         rs.racePairs += checkRaces(ctx);
         rs.tasksTotal += long(ctx.sim.tasks.size());
+        {
+            auto kindOf = [&](int id) {
+                const Task& t = *ctx.sim.tasks[size_t(id)];
+                std::string k = t.firstKind < 0 ? std::string("no-callback") : std::string(opName(t.firstKind));
+                if (t.firstKind == OP_M2M || t.firstKind == OP_M2L || t.firstKind == OP_L2L) k += "@" + std::to_string(t.firstLevel);
+                return k;
+            };
+            for (auto& pr : ctx.sim.invPairs) rs.kindPairsInverted.insert(kindOf(pr.first) + "<" + kindOf(pr.second));
+            for (auto& pr : ctx.sim.nestPairs) rs.kindPairsNested.insert(kindOf(pr.first) + " in " + kindOf(pr.second));
+        }
         addStats(rs.agg, ctx.sim.stats);
         for (auto& e : ctx.sim.errors) rs.fwErrors.push_back(e);
         for (const auto& tp : ctx.sim.tasks) if (tp->state != 2) { ctx.addViolation("quiescence", "task-not-run", "execute() returned while " + ctx.sim.taskLabel(tp->id) + " had not run"); break; }
@@ -200,7 +212,7 @@ void recipeExec(RunState& rs) {
     runHistory(rs, *twin, sc.history, false, "twin");
 
     // reference evaluation (WeightKernel layout only, no periodic images): attribution, and the C09 oracle
-    const bool weightLayout = (tw.kernel == "weight");
+    const bool weightLayout = (tw.kernel == "weight" || tw.kernel == "weight_float");
     bool hasTop = false;
     for (const HistOp& op : sc.history) if (op.op == "top") hasTop = true;
     if (weightLayout && !hasTop) {
@@ -328,8 +340,8 @@ void applyMoves(Ctx& ctx, TreeView& v, const HistOp& op) {
         auto it = where.find(std::make_pair(m.tree, m.index));
         if (it == where.end()) continue;
         for (int d = 0; d < 3; ++d) {
-            double* row = reinterpret_cast<double*>(it->second.first->data[size_t(d)]);
-            row[it->second.second] = m.pos[size_t(d)];
+            if (v.dataElem == sizeof(float)) reinterpret_cast<float*>(it->second.first->data[size_t(d)])[it->second.second] = float(m.pos[size_t(d)]);
+            else reinterpret_cast<double*>(it->second.first->data[size_t(d)])[it->second.second] = m.pos[size_t(d)];
             ctx.inputs[m.tree][size_t(m.index)][size_t(d)] = m.pos[size_t(d)];
         }
     }
@@ -349,8 +361,10 @@ void checkAfterRebuild(RunState& rs, IWorld& w, const std::map<std::pair<int, lo
             if (oi < 0 || oi >= long(ctx.inputs[l.tree].size())) { ctx.addViolation("rebuild:identity", "index-range", "particle index " + std::to_string(oi) + " out of range after rebuild"); continue; }
             seen[std::make_pair(l.tree, oi)] += 1;
             for (size_t k = 0; k < l.data.size() && k < 4; ++k) {
-                double d; std::memcpy(&d, l.data[k] + size_t(i) * sizeof(double), sizeof d);
-                if (std::memcmp(&d, &ctx.inputs[l.tree][size_t(oi)][k], sizeof d) != 0) {
+                bool same;
+                if (v.dataElem == sizeof(float)) { float f; std::memcpy(&f, l.data[k] + size_t(i) * sizeof(float), sizeof f); same = (f == float(ctx.inputs[l.tree][size_t(oi)][k])); }
+                else { double d; std::memcpy(&d, l.data[k] + size_t(i) * sizeof(double), sizeof d); same = std::memcmp(&d, &ctx.inputs[l.tree][size_t(oi)][k], sizeof d) == 0; }
+                if (!same) {
                     ctx.addViolation("rebuild:data", k < 3 ? "position" : "data-value", "particle " + std::to_string(oi) + ": value " + std::to_string(k) + " differs from the edited particle after rebuild");
                     break;
                 }
@@ -358,7 +372,7 @@ void checkAfterRebuild(RunState& rs, IWorld& w, const std::map<std::pair<int, lo
             for (int d = 0; d < 3; ++d) {
                 const double rel = ctx.inputs[l.tree][size_t(oi)][size_t(d)] - ctx.corner[d];
                 const double lw = ctx.width[d] / lwDiv;
-                const double tol = 16.0 * 2.3e-16 * (std::abs(ctx.width[d]) + std::abs(ctx.corner[d]));
+                const double tol = 16.0 * (ctx.isFloat ? 1.2e-7 : 2.3e-16) * (std::abs(ctx.width[d]) + std::abs(ctx.corner[d]));
                 if (rel < double(l.coord[size_t(d)]) * lw - tol || rel > double(l.coord[size_t(d)] + 1) * lw + tol) {
                     ctx.addViolation("rebuild:binning", "outside-leaf", "particle " + std::to_string(oi) + " does not lie in the leaf that holds it after rebuild");
                     break;
@@ -497,6 +511,12 @@ Json runScenario(const Scenario& sc) {
     r.set("steps", ctx.sim.steps);
     r.set("height", sc.height).set("n", (long)sc.src.size()).set("nt", (long)sc.tgt.size()).set("threads", sc.threadsExec);
     r.set("stats", statsJson(rs, ctx));
+    {
+        Json a = Json::array(), b = Json::array();
+        for (auto& x : rs.kindPairsInverted) a.push(x);
+        for (auto& x : rs.kindPairsNested) b.push(x);
+        r.set("inverted_pairs", a).set("nested_pairs", b);
+    }
     Json pol = Json::object();
     pol.set("p_create", sc.policy.pCreate).set("p_yield", sc.policy.pYield).set("pick", sc.policy.pick).set("worker_mode", sc.policy.workerMode)
        .set("scribble", sc.policy.scribble).set("team_shrink", sc.policy.teamShrink);
